@@ -132,8 +132,39 @@ class C03(RecorderProp):
             script.insert(rng.randint(0, len(script) - 1), {'op': rng.choice(['discard', 'discard', 'force'])})
         return script
 
+    THREADS = {'quick': 80, 'thorough': 1200}
+
     def generate(self, rng, tier):
-        return [self.gen_one(rng, tier) for _ in range(self.N[tier])]
+        # + operations whose outputs are sent by worker threads and, on the same aliases, by the operation's own thread before it
+        # starts / after it joins them (the tie to the thread model is C01's; here the oracle is what was SENT, per alias)
+        from harness import threads_c04 as T
+        return [self.gen_one(rng, tier) for _ in range(self.N[tier])] + \
+            [dict(T.gen_record_replay(rng), model=False) for _ in range(self.THREADS[tier])]
+
+    def run_impl(self, case):
+        if case.get('kind') == 'threads':
+            from harness import threads_c04 as T
+            return T.run_record_replay_threads(case)
+        return super(C03, self).run_impl(case)
+
+    def features(self, case, impl):
+        if case.get('kind') == 'threads':
+            return ['threads:outputs-from-%d-workers+main' % len(case['workers'])]
+        return super(C03, self).features(case, impl)
+
+    def sample_repr(self, case):
+        return case if case.get('kind') == 'threads' else super(C03, self).sample_repr(case)
+
+    @staticmethod
+    def sent_by_threads(case):
+        """alias -> the arguments sent on it, in happens-before order (main before start, the owning worker, main after join)"""
+        out = {'output: _tape_recorder_operation #1.output': repr({'args': ['done'], 'kwargs': {}})}
+        for wi, calls in enumerate(case['workers']):
+            seq = [c['arg'] for c in case.get('pre', []) if c['w'] == wi] + [c['arg'] for c in calls if c['site'] == 'out'] + \
+                [c['arg'] for c in case.get('post', []) if c['w'] == wi]
+            for n, arg in enumerate(seq, 1):
+                out['output: out%d #%d.output' % (wi, n)] = repr({'args': [arg], 'kwargs': {}})
+        return out
 
     # -- what the programs send, computed from the programs alone ------------------------------------------------
     @staticmethod
@@ -171,6 +202,17 @@ class C03(RecorderProp):
         return out
 
     def oracle(self, case, impl):
+        if case.get('kind') == 'threads':
+            fails = []
+            want = self.sent_by_threads(case)
+            for side in ('recorded', 'playback'):
+                got = impl['outputs'].get(side) or []
+                if len(got) != len(dict(got)):
+                    fails.append('threads: duplicate keys among the %s outputs: %r' % (side, got))
+                if dict(got) != want:
+                    fails.append('threads: %s outputs %r are not what the threads sent %r (schedules %r)'
+                                 % (side, dict(got), want, impl.get('_choices')))
+            return fails
         fails = []
         for i, r in enumerate(impl):
             if '_result_at_end' in r and r['_result_at_end'] != r['result']:
@@ -201,9 +243,13 @@ class C03(RecorderProp):
         return None
 
     def nontrivial(self, case, impl):
+        if case.get('kind') == 'threads':
+            return True
         return any(sp['kind'] == 'out' for sp in case['sites'].values())
 
     def shrink(self, case):
+        if case.get('kind') == 'threads':
+            return
         for ri in range(len(case['runs'])):
             sc = case['runs'][ri]['script']
             for i in range(len(sc) - 1):
